@@ -284,6 +284,8 @@ def check(ctx):
         w = repo.walker(inline_depth=ctx.depth, max_paths=ctx.max_paths, split_ifexp=True, fold=fold_)
         w.const_heap = dict(repo.ctor_consts(ci))      # attributes the constructor derives from the declared ones
         w.const_heap.update(parked)    # a resolver / locator chosen by _compile is followed
+        from ..model import derived_strategy_consts
+        w.const_heap.update(derived_strategy_consts(repo, ci, s))     # ... and what _compile derives from the declared options
         # strictness holds under every interpreter configuration: a length test written as an
         # assert statement does not exist under python -O / PYTHONOPTIMIZE
         w.strip_asserts = True
@@ -381,13 +383,34 @@ def check_no_length_tolerance(ctx, funcs):
                 st = '%s: %s' % (fi.qual, stmt_text(par.get(id(x), x))[:120])
                 if _only_for_eos_marker(ctx.repo, fi):
                     ctx.holds(rule, fi, st, 'the strategy is installed only for the end-of-string marker (read-to-end field)', x.lineno, clause='iv')
-                elif any("b'$'" in t and 'pattern' in t for t in tests):
+                elif any("b'$'" in t and 'pattern' in t for t in expand_test_consts(ctx.repo, fi, tests)):
                     ctx.holds(rule, fi, st, 'len(raw) only under the end-of-string marker (read-to-end field)', x.lineno, clause='iv')
                 elif _rejecting(par, x):
                     ctx.holds(rule, fi, st, 'bounds check: len(raw) only decides whether to raise', x.lineno, clause='iv')
                 else:
                     ctx.violation(rule, fi, st, 'the length of the input steers parsing: an input cut inside this field parses to a shortened / absent value instead of failing', x.lineno, clause='iv')
     ctx.unit('len_raw_sites', n)
+
+
+def expand_test_consts(repo, fi, tests):
+    """the texts of ``tests`` plus, for a test that reads an attribute _compile derived from the
+    declared options (self.flag = <comparison>), the text with that definition in place"""
+    out = list(tests)
+    try:
+        from ..model import derived_strategy_consts
+        from ..expr import subst
+        ci = repo.cls(fi.qual.split('.')[0])
+        cands = [s_ for s_ in repo.strategies(ci) if s_['unpack'] is fi or s_.get('pack') is fi]
+        heaps = [derived_strategy_consts(repo, ci, s_) for s_ in cands]
+    except Exception:
+        return out
+    if not heaps or any(h != heaps[0] and {k: canon(v) for k, v in h.items()} != {k: canon(v) for k, v in heaps[0].items()} for h in heaps):
+        return out
+    for t in tests:
+        for k, v in heaps[0].items():
+            if k in t:
+                out.append(t.replace(k, '(%s)' % canon(v)))
+    return out
 
 
 def _only_for_eos_marker(repo, fi):
